@@ -43,7 +43,14 @@ pub fn replay(input: &str, output: &str, trace: &str) {
         let layers = if line["stack"] == "pgram-j5" {
             vec![solver::LayerF::Pgram { driven: [0usize, 1, 2, 3, 5][r.gen_range(0..5)], coupled: 4, scaling: [1.0, -1.0, 0.5, 1.7][r.gen_range(0..4)] }]
         } else { solver::stack_for(line["stack"].as_str().unwrap(), &mut r) };
-        let robot = Robot::new(p, layers, None);
+        // (every second robot has joint limits - windows of 1 to 5 rad anywhere, which may or may not contain the joint
+        //  vector asked about or the flipped wrist: the report is geometric, whatever the limits say)
+        let limits = if id % 2 == 1 {
+            let c: Joints = std::array::from_fn(|_| r.gen_range(-1.0..1.0));
+            let w: Joints = std::array::from_fn(|_| r.gen_range(0.5..2.5));
+            Some((std::array::from_fn(|i| c[i] - w[i]), std::array::from_fn(|i| c[i] + w[i]), [0.0, 1.0, 0.5][id % 3]))
+        } else { None };
+        let robot = Robot::new(p, layers, limits);
         // the joint vector of the innermost robot, then the vector the caller has to pass for it
         let mut q: Joints = std::array::from_fn(|_| r.gen_range(-3.0..3.0));
         q[4] = (g5 + p.offsets[4]) * s5 as f64;
